@@ -80,6 +80,7 @@ type GoroutineTaskManager struct {
 
 func NewGoroutineTaskManager(recordLen int, minimumRequiredPerCore int, cpuNum int) *GoroutineTaskManager {
 	number := GetGoroutineManager().AssignRoutineNumber(recordLen, minimumRequiredPerCore, cpuNum)
+	verifParallel(number)
 
 	return &GoroutineTaskManager{
 		Number:      number,
